@@ -67,7 +67,7 @@ def explore(prop, rng, tier, helper_scripts, prefixes, rule):
     def judge(pair, script, impl, model):
         if script[-1].startswith("alu"):
             return True, "(helper result differs from the model, which is proved equal to exact integer arithmetic)"
-        s2 = [script[0], script[1].replace("interp step", "interp stepv")]
+        s2 = script[:-1] + [script[-1].replace("interp step", "interp stepv")]
         a, b, _, _ = pair.run([s2], shards=1)
         return True, "(instruction result differs from the reference model: %s)" % c01.field_diff(a[0][-1], b[0][-1])
 
